@@ -122,7 +122,8 @@ class C04(Harness):
             ki = e.choose('key', len(names) + 1)
             key = names[ki] if ki < len(names) else Str([e.fresh_ascii('n', keyinit)])
             op = ['set', 'insert', 'remove', 'rename'][e.choose('op', 4)]
-            vlines = [[e.fresh_ascii('w', lower)]] + ([[e.fresh_ascii('w', lower)]] if e.choose('vl', 2) else [])
+            vk = e.choose('vl', 3 if h == 0 else 2)       # one line / two lines / (first step only) the empty value
+            vlines = [[]] if vk == 2 else ([[e.fresh_ascii('w', lower)]] + ([[e.fresh_ascii('w', lower)]] if vk == 1 else []))
             val = Str(model_value(vlines))
             newkey = Str([e.fresh_ascii('m', keyinit)])
             e.inputs['ops'].append({'op': op, 'para': pi, 'key': key, 'value': val, 'newkey': newkey})
